@@ -10,59 +10,7 @@ Import ListNotations.
 
 Definition str (s : string) : bytes := ascii_bytes s.
 
-(* ---------- consistent parameter schemas ---------- *)
-
-(* member positions: every member records a position and the positions are exactly 0..n-1, each
-   once *)
-Definition member_index (m : bytes * option schema) : option Z :=
-  match snd m with
-  | Some (Schema _ _ (Some d) _ _) => d_index d
-  | _ => None
-  end.
-Definition count_pos (z : Z) (l : list (option Z)) : nat :=
-  length (filter (fun o => match o with Some z' => Z.eqb z z' | None => false end) l).
-Definition positions_ok (members : list (bytes * option schema)) : bool :=
-  let idx := map member_index members in
-  forallb (fun o => match o with Some _ => true | None => false end) idx
-  && forallb (fun i => (count_pos (Z.of_nat i) idx =? 1)%nat) (seq 0 (length members)).
-
-(* A schema describes a parameter consistently when it carries details; an "array" schema describes
-   its elements through [items] at every dimension; and the members of an "object" schema (or of
-   the innermost element description of an array schema) are present, consistent themselves, and
-   positioned 0..n-1. *)
-Fixpoint consistent (s : schema) : bool :=
-  match s with
-  | Schema t _ det props items =>
-      match det with None => false | Some _ => true end
-      && (let members_ok := fun (ms : list (bytes * option schema)) =>
-            positions_ok ms
-            && (fix all (l : list (bytes * option schema)) : bool :=
-                  match l with
-                  | [] => true
-                  | (_, None) :: _ => false
-                  | (_, Some m) :: r => consistent m && all r
-                  end) ms in
-          if bytes_eqb t (str "object") then members_ok props
-          else if bytes_eqb t (str "array") then
-            match items with
-            | None => false
-            | Some it0 =>
-                (fix elem (it : schema) : bool :=
-                   match it with
-                   | Schema t' _ _ props' items' =>
-                       if bytes_eqb t' (str "array") then
-                         match items' with None => false | Some it' => elem it' end
-                       else positions_ok props'
-                            && (fix all (l : list (bytes * option schema)) : bool :=
-                                  match l with
-                                  | [] => true
-                                  | (_, None) :: _ => false
-                                  | (_, Some m) :: r => consistent m && all r
-                                  end) props'
-                   end) it0
-            end
-          else true)
-  end.
+(* ---------- JSON type vs Ethereum type ---------- *)
 
 (* JSON type against the Ethereum type named in the details *)
 Inductive eth_class := KArray | KTuple | KInteger | KNumber | KBoolean | KOtherElementary.
@@ -105,17 +53,59 @@ Definition type_at_odds (s : schema) : bool :=
   | _, _ => false
   end.
 
-(* some member, at any depth, declares a JSON type at odds with its Ethereum type *)
-Fixpoint member_at_odds (s : schema) : bool :=
+(* ---------- consistent parameter schemas ---------- *)
+
+(* member positions: every member records a position and the positions are exactly 0..n-1, each
+   once *)
+Definition member_index (m : bytes * option schema) : option Z :=
+  match snd m with
+  | Some (Schema _ _ (Some d) _ _) => d_index d
+  | _ => None
+  end.
+Definition count_pos (z : Z) (l : list (option Z)) : nat :=
+  length (filter (fun o => match o with Some z' => Z.eqb z z' | None => false end) l).
+Definition positions_ok (members : list (bytes * option schema)) : bool :=
+  let idx := map member_index members in
+  forallb (fun o => match o with Some _ => true | None => false end) idx
+  && forallb (fun i => (count_pos (Z.of_nat i) idx =? 1)%nat) (seq 0 (length members)).
+
+(* A schema describes a parameter consistently when it carries details; its JSON type is not at
+   odds with the Ethereum type of the details; an "array" schema describes its elements through
+   [items] at every dimension; and the members of an "object" schema (or of the innermost element
+   description of an array schema) are present, consistent themselves, and positioned 0..n-1. *)
+Fixpoint consistent (s : schema) : bool :=
   match s with
-  | Schema _ _ _ props items =>
-      (fix any (l : list (bytes * option schema)) : bool :=
-         match l with
-         | [] => false
-         | (_, None) :: r => any r
-         | (_, Some m) :: r => type_at_odds m || member_at_odds m || any r
-         end) props
-      || match items with None => false | Some it => member_at_odds it end
+  | Schema t o det props items =>
+      match det with None => false | Some _ => true end
+      && negb (type_at_odds (Schema t o det props items))
+      && (let members_ok := fun (ms : list (bytes * option schema)) =>
+            positions_ok ms
+            && (fix all (l : list (bytes * option schema)) : bool :=
+                  match l with
+                  | [] => true
+                  | (_, None) :: _ => false
+                  | (_, Some m) :: r => consistent m && all r
+                  end) ms in
+          if bytes_eqb t (str "object") then members_ok props
+          else if bytes_eqb t (str "array") then
+            match items with
+            | None => false
+            | Some it0 =>
+                (fix elem (it : schema) : bool :=
+                   match it with
+                   | Schema t' _ _ props' items' =>
+                       if bytes_eqb t' (str "array") then
+                         match items' with None => false | Some it' => elem it' end
+                       else positions_ok props'
+                            && (fix all (l : list (bytes * option schema)) : bool :=
+                                  match l with
+                                  | [] => true
+                                  | (_, None) :: _ => false
+                                  | (_, Some m) :: r => consistent m && all r
+                                  end) props'
+                   end) it0
+            end
+          else true)
   end.
 
 (* oracle on an input of the FFI -> ABI conversion: a schema that passed the jsonschema compile and
@@ -123,16 +113,9 @@ Fixpoint member_at_odds (s : schema) : bool :=
 Definition pin_inconsistent (p : pin) : bool :=
   pi_verdict p &&
   match pi_unm p with
-  | Some (Some s) => negb (consistent s) || type_at_odds s
+  | Some (Some s) => negb (consistent s)
   | Some None => true
   | None => false
-  end.
-
-Definition pin_nested_type_mismatch (p : pin) : bool :=
-  pi_verdict p &&
-  match pi_unm p with
-  | Some (Some s) => member_at_odds s
-  | _ => false
   end.
 
 (* ---------- explicit-width type spellings ---------- *)
